@@ -28,7 +28,43 @@ func randConstraintProblem(r *rand.Rand, maxN, maxCons, W int) (front string, n 
 
 // coveringProblem: mostly positive clauses / at-least-k constraints over variables that all carry a cost.
 func coveringProblem(r *rand.Rand) (front string, n int, strict bool, cons []gen.M, obj gen.M) {
-	n = 3 + r.Intn(5)
+	return coveringProblemN(r, 3+r.Intn(5))
+}
+
+// starsProblem: weighted vertex cover of m disjoint stars. The greedy first model (heaviest cost
+// variables false first) pays for all the leaves; every improvement switches one star to its
+// centre: a chain of up to m improving models.
+func starsProblem(r *rand.Rand) (front string, n int, strict bool, cons []gen.M, obj gen.M) {
+	m := 2 + r.Intn(2)
+	var lits, w []int
+	v := 0
+	for j := 0; j < m; j++ {
+		wc := 2 + r.Intn(2)
+		k := wc + 1 + r.Intn(2)
+		if m == 3 && k > 3 {
+			k = 3
+			wc = 2
+		}
+		v++
+		c := v
+		lits, w = append(lits, c), append(w, wc)
+		for i := 0; i < k; i++ {
+			v++
+			lits, w = append(lits, v), append(w, 1)
+			cons = append(cons, gen.Clause(c, v))
+		}
+	}
+	n = v
+	perm := r.Perm(len(cons))
+	sh := make([]gen.M, len(cons))
+	for i, p := range perm {
+		sh[i] = cons[p]
+	}
+	return "slicenb", n, true, sh, gen.M{"lits": lits, "w": w}
+}
+
+func coveringProblemN(r *rand.Rand, nn0 int) (front string, n int, strict bool, cons []gen.M, obj gen.M) {
+	n = nn0
 	front = []string{"slicenb", "pb", "card"}[r.Intn(3)]
 	m := 2 + r.Intn(n+1)
 	for i := 0; i < m; i++ {
@@ -56,6 +92,14 @@ func coveringProblem(r *rand.Rand) (front string, n int, strict bool, cons []gen
 			lits[i] = -lits[i]
 		}
 		w[i] = 1 + r.Intn(3)
+	}
+	if r.Intn(3) == 0 { // a cost literal fixed at top level by a unit constraint
+		v := 1 + r.Intn(n)
+		l := -lits[v-1]
+		if r.Intn(4) == 0 {
+			l = -l
+		}
+		cons = append(cons, gen.Clause(l))
 	}
 	nn := n
 	if front != "slicenb" {
@@ -263,6 +307,9 @@ func init() {
 				}
 				if r.Intn(2) == 0 { // covering problems: the first model found is rarely optimal
 					front, n, strict, cons, obj = coveringProblem(r)
+					hasObj = true
+				} else if r.Intn(8) == 0 { // chains of improving models
+					front, n, strict, cons, obj = starsProblem(r)
 					hasObj = true
 				}
 				if r.Intn(6) == 0 { // OPB text: the only route by which negative cost coefficients can be given
